@@ -210,6 +210,19 @@ def run(prop, tier, seed, t0):
             kv['_merged'] = True
     violations = [v for v in violations if not v.get('_merged')]
 
+    # ---- a proof that no longer goes through is not a counterexample: when the obligation has a *complete* Kani twin
+    # (full-domain check of the same contract on the compiled code) and that twin passes, the Verus failure is reported
+    # as undecided (typical cause: a behaviour-preserving refactoring that needs new hints), never as a violation.
+    if k is not None:
+        twins_ok = set(h.get('obligation') for h in k['harnesses'] if h.get('obligation') and h['complete'] and h['status'] == 'SUCCESS')
+        kept = []
+        for it in violations:
+            if it.get('engine', '').startswith('verus') and it.get('obligation') in twins_ok:
+                undecided.append('proof of %s failed but its complete Kani twin passes (no failing input exists within the harness domain): undecided' % it.get('obligation'))
+            else:
+                kept.append(it)
+        violations = kept
+
     # ---- classify -----------------------------------------------------------------------------
     real = []
     for it in violations:
